@@ -112,6 +112,18 @@ CHECKS = {
         "note": ENGINE_NOTE + " TTL fields are top-level; clock skew between the recorded time and lungo's reading is far below the 30 min margins.",
         "technique": "TLA+ specification of TTL expiry evaluated by TLC on recorded real expiry passes (code->spec trace validation)",
     },
+    "C09": {
+        "level": "model_checking",
+        "text": "Sequential histories with streams on client/database/collection scope from the start positions now, resumeAfter, startAfter and startAt: every TryNext "
+                "call is recorded with the complete change-log history, the retention boundary, the start position and the number delivered, and judged by TLC with "
+                "Streams!NextOK (exactly the next event of the scope; invalidate after a drop of the scope; lost-position error when an undelivered event was discarded); "
+                "retention under a slow consumer and uncommitted writes (rejecting store, engine-level abort) are covered. Concurrently, writers commit in bursts while "
+                "consumers block in Next under the hooks with yields in the check/wait and broadcast windows; a watchdog requires every consumer to catch up within 3 s "
+                "after each burst and to be woken by Close / cancellation within 1 s; delivered sequences are judged with Streams!DeliveredOK; MCStreams model checks "
+                "no-skip / no-duplicate / in-order under interleaved commits and retention.",
+        "note": "Trusted: the change-log history as read from engine.Catalog() after every step; liveness on real code is a bounded-wait observation.",
+        "technique": "TLA+ stream specification checked by TLC; code->spec validation of recorded TryNext calls and of delivery records from concurrent runs with hook-injected yields",
+    },
     "C10": {
         "level": "model_checking",
         "text": "Every generated (document, filter) case is evaluated by the real mongokit.Match and by TLC on Query!MatchImpl (all inputs) and, "
